@@ -79,9 +79,10 @@ func main() {
 			noSchema++ // reported by C13 (registered but not defined)
 			continue
 		}
-		if _, custom := reflect.New(e.Type.Elem()).Interface().(tl.Marshaler); custom {
-			continue // hand-written wire form (gzip_packed): driven from reference bytes in special()
+		if _, custom := reflect.New(e.Type.Elem()).Interface().(tl.Marshaler); custom && e.CRC == 0x3072cfa1 {
+			continue // gzip_packed (its bytes are not a function of the value alone): driven from reference bytes in special()
 		}
+		// other types that code themselves (future_salts) are held to their schema line like everything else
 		covered++
 		baseBad := false
 		g.Cases(e, k, func(c tlx.Case) {
